@@ -245,6 +245,7 @@ fn one_case(w: &mut World, rep: &mut Report, rng: &mut Rng, kind: Kind, n_other:
 	let mc = if minconf0 { 0 } else { 1 };
 	let args = InitTxArgs { amount, minimum_confirmations: mc, num_change_outputs: change, selection_strategy_is_use_all: minconf0, ..Default::default() };
 	let unconf_before: Vec<String> = p0.outs.iter().filter(|o| o.status == "Unconfirmed").map(|o| o.key.clone()).collect();
+	let again = kind == Kind::Received && by_slate_id && n_other % 2 == 1;
 	// create T and advance it
 	let r = (|| -> Result<uuid::Uuid, libwallet::Error> {
 		match kind {
@@ -257,6 +258,12 @@ fn one_case(w: &mut World, rep: &mut Report, rng: &mut Rng, kind: Kind, n_other:
 				let s = w.wallets[0].init_send(args.clone())?;
 				w.wallets[0].lock_outputs(&s)?;
 				w.wallets[1].receive(&s, None)?;
+				if again {
+					// an earlier attempt with the same slate that the recipient cancelled: the account then holds a
+					// cancelled entry and the pending one under one slate id
+					w.wallets[1].cancel(None, Some(s.id))?;
+					w.wallets[1].receive(&s, None)?;
+				}
 				Ok(s.id)
 			}
 			Kind::SentFinalized | Kind::ReceivedThenFinalizedByPeer => {
@@ -310,9 +317,15 @@ fn one_case(w: &mut World, rep: &mut Report, rng: &mut Rng, kind: Kind, n_other:
 	// did T reserve an output that was still unconfirmed?
 	let spent_unconfirmed = wal.all_outputs().unwrap_or_default().iter().any(|o| o.status == OutputStatus::Locked && unconf_before.contains(&idstr(&o.key_id)));
 	let case = json!({"job":"c05","kind": format!("{:?}", kind), "cross_account": cross, "coins_restored_by_scan": restored, "account_under_test": t_account, "other_pending": n_other, "cancel_by": if by_slate_id {"slate id"} else {"log id"}, "change_outputs": change, "minimum_confirmations": mc, "amount": amount.to_string()});
-	// cancel (self-send: two entries share the slate id, so both are cancelled by log id)
+	if again {
+		rep.count("received-again-after-an-earlier-cancelled-attempt:cancel-by-slate-id");
+	}
+	if kind == Kind::SelfSend && by_slate_id {
+		rep.count("self-send:cancel-by-slate-id");
+	}
+	// cancel (by log id: every entry of the transaction - a self-send has two; by slate id: one request)
 	let mut results = vec![];
-	if kind == Kind::SelfSend || !by_slate_id {
+	if !by_slate_id {
 		for t in mine.iter() {
 			results.push(catch(|| wal.cancel(Some(t.id), None)));
 		}
@@ -396,6 +409,50 @@ fn one_case(w: &mut World, rep: &mut Report, rng: &mut Rng, kind: Kind, n_other:
 	if rep.samples.len() < 4 {
 		rep.sample(case);
 	}
+	cleanup(w);
+}
+
+/// Refusal clause: a request that names no transaction at all, made in an account whose log holds exactly one
+/// (pending) entry. It is a request for an unknown transaction: refused, nothing changes.
+fn cancel_without_any_id(w: &mut World, rep: &mut Report, rng: &mut Rng, n: usize) {
+	fund(w);
+	let label = format!("solo{}", n);
+	let wal = &w.wallets[1];
+	if wal.create_account(&label).is_err() {
+		return;
+	}
+	let case = json!({"job":"c05","scenario":"cancel_tx(None, None) in an account whose log holds exactly one pending entry", "account": label});
+	let r = (|| -> Result<uuid::Uuid, libwallet::Error> {
+		let s = w.wallets[0].init_send(InitTxArgs { amount: 500_000_000 + rng.below(500_000_000), minimum_confirmations: 1, selection_strategy_is_use_all: false, ..Default::default() })?;
+		w.wallets[0].lock_outputs(&s)?;
+		wal.receive(&s, Some(&label))?;
+		Ok(s.id)
+	})();
+	let id = match r {
+		Ok(i) => i,
+		Err(e) => {
+			rep.count(&format!("no-id:setup-refused:{}", err_kind(&e)));
+			cleanup(w);
+			return;
+		}
+	};
+	let _ = wal.set_account(&label);
+	let before = view(wal).ok();
+	rep.eval();
+	match catch(|| wal.cancel(None, None)) {
+		Err((loc, msg)) => rep.violation(&format!("C05|panic|{}", loc), &msg, case.clone()),
+		Ok(Ok(())) => rep.violation("C05|cancel-accepted|no-transaction-named", "cancel_tx with neither a log id nor a slate id returned Ok (and cancelled the account's only entry)", case.clone()),
+		Ok(Err(_)) => {
+			rep.count("refused:no-transaction-named");
+			if let (Some(b), Ok(a)) = (before, view(wal)) {
+				if a != b {
+					rep.violation("C05|refused-cancel-changed-state", "a refused cancel changed wallet state", case.clone());
+				}
+			}
+		}
+	}
+	let _ = wal.cancel(None, Some(id));
+	let _ = wal.set_account("default");
 	cleanup(w);
 }
 
@@ -517,6 +574,7 @@ pub fn run(a: &Args) {
 			mined_but_not_yet_seen(&mut w, &mut rep, &mut rng, *nc, *by);
 		}
 	}
+	cancel_without_any_id(&mut w, &mut rep, &mut rng, a.shard);
 	let _: Option<Value> = None;
 	rep.write(&a.out);
 }
